@@ -17,6 +17,10 @@ def ecsmul (args : List String) : String :=
     | _, _, _ => "bad-op"
   | _ => "bad-op"
 
+/-- `ecsmulseq <x,y,k> …` : every call judged on its own -/
+def ecsmulseq (args : List String) : String :=
+  "/".intercalate (args.map fun a => ecsmul (a.splitOn ","))
+
 def ecbase (args : List String) : String :=
   match args with
   | [k] => match natOf k with
@@ -108,6 +112,15 @@ def sm2verify (args : List String) : String :=
       if uid.length ≥ 8192 then "0" else
       if verify x y uid msg r s then "1" else "0"
     | _, _, _, _, _, _ => "bad-op"
+  | _ => "bad-op"
+
+/-- `sm2verifye <x> <y> <e> <r> <s>` : the digest-level verification -/
+def sm2verifye (args : List String) : String :=
+  match args with
+  | [x, y, e, r, s] =>
+    match natOf x, natOf y, ofHex e, natOf r, natOf s with
+    | some x, some y, some e, some r, some s => if verifyE x y (os2ip e) r s then "1" else "0"
+    | _, _, _, _, _ => "bad-op"
   | _ => "bad-op"
 
 def sm2verifyder (args : List String) : String :=
@@ -242,10 +255,12 @@ def sm2Dispatch (toks : List String) : Option String :=
   match toks with
   | "ecsmul" :: r => some (ecsmul r) | "ecbase" :: r => some (ecbase r) | "ecadd" :: r => some (ecadd r)
   | "ecdbl" :: r => some (ecdbl r) | "econ" :: r => some (econ r) | "eckeygen" :: r => some (eckeygen r)
+  | "ecsmulseq" :: r => some (ecsmulseq r)
   | "eckeyok" :: r => some (eckeyok r)
   | "sm2sign" :: r => some (sm2sign r) | "sm2signder" :: r => some (sm2signder r)
   | "sm2verify" :: r => some (sm2verify r) | "sm2verifyder" :: r => some (sm2verifyder r)
   | "sm2enc" :: r => some (sm2enc r) | "sm2dec" :: r => some (sm2dec r)
+  | "sm2verifye" :: r => some (sm2verifye r)
   | "sm2signok" :: r => some (sm2signok r) | "sm2signderok" :: r => some (sm2signderok r)
   | "sm2kex" :: r => some (sm2kex r) | "sm2kexbad" :: r => some (sm2kexbad r)
   | _ => none
